@@ -4,11 +4,11 @@ import json, struct, collections
 READY = True
 
 META = {
-    "technique": "Lean 4 proof (serde data model by shape: de ∘ ser = id; handle registry; JSON writer for whole values in all formatter styles + independent JSON reader: read ∘ tojson ∘ write = id; HTML-safe alphabet) + differential runs of a shape-driven Serialize/DeserializeSeed pair, derived types, and three independent JSON readers (Python json, serde_json, the Lean reader); second generation: serde's buffering read path, Serde<T> call arguments, Value as deserialisation target, serde's std-type impls, serde_json's own JSON of the same datum as reference, an exhaustive family for the tojson post-processing, regenerated method / arm tables of both serde impls",
+    "technique": "Lean 4 proof (serde data model by shape: de ∘ ser = id; handle registry; JSON writer for whole values in all formatter styles + independent JSON reader: read ∘ tojson ∘ write = id; HTML-safe alphabet) + differential runs of a shape-driven Serialize/DeserializeSeed pair, derived types, and three independent JSON readers (Python json, serde_json, the Lean reader); second generation: serde's buffering read path, Serde<T> call arguments, Value as deserialisation target, serde's std-type impls, serde_json's own JSON of the same datum as reference, an exhaustive family for the tojson post-processing, regenerated method / arm tables of both serde impls; third generation: the dispatch of deserialize.rs on its source value regenerated arm by arm with first-match semantics in Lean and proved to be a function of the value's kind, every Deserializer method on every representation probed against an executable Lean model, C16_main with the code/model gap as named ties, the digits of a float token proved to lie in the double's rounding interval",
     "category": "proof",
-    "text": "Kernel-checked theorems about an executable model of value/serialize.rs (ValueSerializer), value/deserialize.rs (Deserializer for Value driven by the derived visitor of a shape, including serde's lenient primitive conversions) and the value-handle registry: every well-formed datum of every shape (bools, 8..64-bit integers, f32/f64 bit patterns, chars, strings, bytes, options of non-optional payloads, unit, seqs, tuples, maps, unit/newtype/tuple/field structs, enums with unit/newtype/tuple/struct variants, nested arbitrarily) deserialises from its serialisation to itself; de decides (ok/error) every object-free value for every shape; an embedded Value comes back identical whatever the registry held before, and the two-tier handle registry (its fast-path condition regenerated from the source) refines a finite map for every sequence of inserts and removes. For JSON: the text of every value that has a JSON image (nested arrays/objects, keys by string form, none/undefined/non-finite floats null, bytes as numbers, integers of every width, finite floats by ryu's shortest text) written by serde_json's compact writer, the JinjaJsonFormatter, or the pretty writer with any indent, and post-processed by tojson (table extracted from filters.rs) or not (auto-escaping), is read back to exactly that image by an independent strict JSON reader; tojson output never contains < > & '; towards an external serializer a value announces a sequence length only when exactly that many elements follow (serde's contract, which serde_json relies on), for lists, tuples, one-shot iterators, make_iterable adapters and custom objects with every Enumerator answer. The model is tied to /repo by running the same random shapes/data through the real Serializer/Deserializer and through the model, and by predicting the real tojson / auto-escape output character for character (member order of the BTreeMap and IndexMap builds, float text), which is also parsed by Python's json (bit-exact floats) and serde_json. Further theorems: no byte of the UTF-8 encoding of tojson output is one of < > & '; which map keys have a JSON string form and which make the serialiser refuse; the deserializer model cannot tell a value from the copy serde's buffering (untagged / internally tagged enums, flatten) makes of it, so the round trip holds through the buffer; a datum handed to a function / filter / test / method parameter of type Serde<T> arrives as the original (never taken from keyword arguments or from nothing), for Option<Serde<T>> whenever T cannot serialise to none; plain data read back into a Value (impl Deserialize for Value) is its normal form (undefined as none, no safe flag, tuples as lists) and keeps its JSON image; IndexMap build: new keys last, existing keys keep their position; every method of serde's Serializer / Deserializer traits (regenerated from the locked serde_core) is accounted for in both impls (explicit, forwarded to deserialize_any, or the trait's unsupported default for 128-bit integers) and the scalar arms of ValueSerializer, the arms of deserialize_any and of impl Serialize for Value are the ones the model transcribes.",
+    "text": "Kernel-checked theorems about an executable model of value/serialize.rs (ValueSerializer), value/deserialize.rs (Deserializer for Value driven by the derived visitor of a shape, including serde's lenient primitive conversions) and the value-handle registry: every well-formed datum of every shape (bools, 8..64-bit integers, f32/f64 bit patterns, chars, strings, bytes, options of non-optional payloads, unit, seqs, tuples, maps, unit/newtype/tuple/field structs, enums with unit/newtype/tuple/struct variants, nested arbitrarily) deserialises from its serialisation to itself; de decides (ok/error) every object-free value for every shape; an embedded Value comes back identical whatever the registry held before, and the two-tier handle registry (its fast-path condition regenerated from the source) refines a finite map for every sequence of inserts and removes. For JSON: the text of every value that has a JSON image (nested arrays/objects, keys by string form, none/undefined/non-finite floats null, bytes as numbers, integers of every width, finite floats by ryu's shortest text) written by serde_json's compact writer, the JinjaJsonFormatter, or the pretty writer with any indent, and post-processed by tojson (table extracted from filters.rs) or not (auto-escaping), is read back to exactly that image by an independent strict JSON reader; tojson output never contains < > & '; towards an external serializer a value announces a sequence length only when exactly that many elements follow (serde's contract, which serde_json relies on), for lists, tuples, one-shot iterators, make_iterable adapters and custom objects with every Enumerator answer. The model is tied to /repo by running the same random shapes/data through the real Serializer/Deserializer and through the model, and by predicting the real tojson / auto-escape output character for character (member order of the BTreeMap and IndexMap builds, float text), which is also parsed by Python's json (bit-exact floats) and serde_json. Further theorems: no byte of the UTF-8 encoding of tojson output is one of < > & '; which map keys have a JSON string form and which make the serialiser refuse; the deserializer model cannot tell a value from the copy serde's buffering (untagged / internally tagged enums, flatten) makes of it, so the round trip holds through the buffer; a datum handed to a function / filter / test / method parameter of type Serde<T> arrives as the original (never taken from keyword arguments or from nothing), for Option<Serde<T>> whenever T cannot serialise to none; plain data read back into a Value (impl Deserialize for Value) is its normal form (undefined as none, no safe flag, tuples as lists) and keeps its JSON image; IndexMap build: new keys last, existing keys keep their position; every method of serde's Serializer / Deserializer traits (regenerated from the locked serde_core) is accounted for in both impls (explicit, forwarded to deserialize_any, or the trait's unsupported default for 128-bit integers) and the scalar arms of ValueSerializer, the arms of deserialize_any and of impl Serialize for Value are the ones the model transcribes. Session 4: every `match` of deserialize.rs on the source value (deserialize_any / _option / _enum / _unit_struct / _newtype_struct of the owned deserializer, unit_variant / newtype_variant_seed / tuple_variant / struct_variant of the variant access) and Value::kind() are regenerated arm by arm (SERDE_DE_DISPATCH: selectors repr:X / obj:X / kind:X / some / absent / *, anything else - a guard that is not the object's repr(), an unknown pattern - is opaque and fails); Lean resolves them with Rust's first-match semantics on each of the 16 representations (ValueRepr x ObjectRepr) and on the absent payload and proves that the result is what the dispatch written by serde-visible kind (`spec`) says (deserializer_dispatch_as_modelled), hence that two representations of one kind - SmallStr / Arc<str> / safe string, none / undefined - are always dispatched alike (deserializer_dispatch_is_by_kind; seeded C16-8 now also breaks this theorem). An executable model `probe` of all 30 trait methods + the 4 variant accesses on every kind is run against the real code (stream rk: 34 methods x every representation x owned / borrowed deserializer, a visitor recording the visit_* call and payload). C16_main states the property about the code under four named ties (ser_as_model, de_as_model, tojson_as_model, autoescape_as_model) and the specification CorrectlyRounded of the JSON reader's number parsing; float_token_roundtrip proves that the token printed for any finite double is its sign plus a body that a digit-by-digit reader evaluates to a decimal inside the double's rounding interval; float_digits_read_back proves, for every finite non-zero double, that the decimal d*10^k chosen for it lies in its rounding interval (open / closed as round-to-nearest-even makes it), float_digit_search_terminates that the exact search never runs out of steps.",
     "design_ref": "DESIGN.md §3 C16",
-    "level_note": "Trusted: Lean kernel; hand transcription of serialize.rs/deserialize.rs/ValueHandleRegistry into MJ/Model/Serde.lean and of serde_json's writer/formatters, ryu's format64 layout and Value::cmp on map keys into MJ/Model/Json.lean (validated by the correspondence streams, sampled; every emitted text is predicted exactly); serde's own primitive/Option/seq/map visitors and derive output are represented by the harness' Seed visitors (and by 13 really derived types + 4 families of std types); serde's Content buffering is represented by `normV` (validated by the buf stream on round-trip data, not transcribed). Not proved: that the printed float token denotes the same double (checked bit-exactly against Python's correctly rounded reader on every float case).",
+    "level_note": "Trusted: Lean kernel; hand transcription of serialize.rs/deserialize.rs/ValueHandleRegistry into MJ/Model/Serde.lean and of serde_json's writer/formatters, ryu's format64 layout and Value::cmp on map keys into MJ/Model/Json.lean (validated by the correspondence streams, sampled; every emitted text is predicted exactly); serde's own primitive/Option/seq/map visitors and derive output are represented by the harness' Seed visitors (and by 13 really derived types + 4 families of std types); serde's Content buffering: the filling of the buffer from a Value (Content::deserialize = deserialize_any with the ContentVisitor, by kind) and the visitor calls its deserialize_any replays are transcribed (toContent / ofContent) and proved to compose to `normV` (content_buffer_is_normal_form, content_buffer_roundtrip); the variant selection of untagged / internally / adjacently tagged enums and flatten's FlatMapDeserializer (serde's private de module) are NOT transcribed - for them the model assumes that ContentDeserializer reads the copy like `de` reads a value, accepting at most more (validated by the buf stream through five derive forms on round-trip data). The printed float token denotes the same double: PROVED in session 4 (float_token_roundtrip) for every finite double - (a) the exact digit search stops at a candidate within its 800 steps (float_digit_search_terminates: at 10^-325 the rounding interval is wider than three units and the search reaches that power in time), (b) the candidate d*10^k lies in the double's rounding interval, open / closed as round-to-nearest-even makes it (float_digits_read_back), (c) ryu's layout of the digits, all five cases of format64, is a token that an independent digit-by-digit reader in Lean (readTok: integer part, fraction, exponent) evaluates to d*10^k (readTok_layout); hence every reader satisfying the specification CorrectlyRounded returns the double (float_token_reads_back, used by C16_main). What this rests on: the transcription of ryu's output into shortestDec / layoutF (validated: every float text of every stream is predicted character for character, and the ff stream - every binade boundary with both neighbours, decimal powers, 2^53 neighbourhood, random patterns, 11k quick / 130k thorough - also evaluates found / in-interval in the driver and reads the real token back with Rust's str::parse and Python's float()); CorrectlyRounded is the reader's specification (its consistency - rounding intervals of different doubles are disjoint - is not proved in Lean). STILL ONLY VALIDATED: the four ties of C16_main (named there with the streams / tables that check each); serde's derive output (Seed visitors + 13 derived types), Content buffering (normV; buf stream). OUTSIDE THE MODEL: the probe model covers nested values built by the harness (64-bit integers where they fit); integers in a 128-bit representation that fit 64 bits are dispatched to visit_i128 / visit_u128, which serde's 8..64-bit visitors refuse - recorded behaviour (the serializer never makes such values of 64-bit data), no oracle. MOVED FROM VALIDATED TO PROVED in session 3 (redone in session 4): the dispatch of all nine functions of deserialize.rs that look at the source value, as a table regenerated from the source with a theorem over it (before: deserialize_any's arms and the text of deserialize_option compared literally, deserialize_enum and the variant access hand-transcribed and only run); normV as the image of serde's Content buffer (before: an unexplained normal form); representation-independence of the deserializer (by-kind theorem); float_token_roundtrip in full (search termination, digits inside the rounding interval, layout denotes the digits) - before: Python's float() on sampled cases; the property about the code as one theorem with its hypotheses named (C16_main).",
 }
 
 SITE_TOP = lambda case: case.split()[1] if len(case.split()) > 1 else "?"
@@ -152,8 +152,54 @@ def py_parse(text):
     return json.loads(text, parse_constant=_reject_constant)
 
 
+# ------------------------------------------------------------------ the `rk` stream: what the property itself demands
+_INT_METHS = {"u8": (0, 2**8 - 1), "u16": (0, 2**16 - 1), "u32": (0, 2**32 - 1), "u64": (0, 2**64 - 1),
+              "i8": (-2**7, 2**7 - 1), "i16": (-2**15, 2**15 - 1), "i32": (-2**31, 2**31 - 1), "i64": (-2**63, 2**63 - 1)}
+
+
+def rk_expected(meth, rep, how, desc):
+    """For a source in the representation the serializer itself produces for a primitive datum, and the method serde's
+    own `Deserialize` impl of that datum's type calls (or `deserialize_any` / `_ignored_any` / `_option` /
+    `_newtype_struct`): the set of visitor calls that hand the datum back (a standard visitor accepts an in-range
+    integer as `visit_u64` or `visit_i64`).  None = the property says nothing about this combination."""
+    if " " in desc or how not in ("ref", "i64", "u64", "vd"):
+        return None
+    wrap = lambda xs: xs
+    if meth == "option" and desc != "none":
+        wrap, meth = (lambda xs: {"some(" + x + ")" for x in xs}), "any"
+    elif meth == "newtype_struct":
+        wrap, meth = (lambda xs: {"newtype(" + x + ")" for x in xs}), "any"
+    if rep == "none":
+        return wrap({"unit", "none"}) if meth in ("any", "unit", "unit_struct", "option", "ignored_any") else None
+    if rep == "bool":
+        return wrap({"bool:" + desc}) if meth in ("any", "bool", "ignored_any") else None
+    if rep in ("u64", "i64"):
+        n = int(desc[1:])
+        if meth in ("any", "ignored_any") or (meth in _INT_METHS and _INT_METHS[meth][0] <= n <= _INT_METHS[meth][1]):
+            acc = set()
+            if n >= 0:
+                acc.add(f"u64:{n}")
+            if n < 2**63:
+                acc.add(f"i64:{n}")
+            return wrap(acc)
+        return None
+    if rep == "f64":
+        return wrap({"f64:" + desc[1:]}) if meth in ("any", "f64", "ignored_any") else None
+    if rep in ("smallStr", "string") and desc[0] == "s":
+        text = bytes.fromhex(desc[1:]).decode("utf-8")
+        if meth in ("any", "str", "string", "identifier", "ignored_any") or (meth == "char" and len(text) == 1):
+            return wrap({"str:" + desc[1:]})
+        if meth == "enum:unit":
+            return {"enum(str:" + desc[1:] + ";unit:ok)"}
+        return None
+    if rep == "bytes":
+        return wrap({"bytes:" + desc[1:]}) if meth in ("any", "bytes", "byte_buf", "ignored_any") else None
+    return None
+
+
 # ------------------------------------------------------------------ run
 def check_lines(r, lines, model):
+    rk_groups = collections.defaultdict(list)
     for i, line in enumerate(lines):
         f = line.split("\t")
         case = f[0]
@@ -434,10 +480,63 @@ def check_lines(r, lines, model):
                 n = int(case.split()[1])
                 cls = "lt256" if n < 256 else "lt65536" if n < 65536 else "ge65536"
                 r.oracle_failure(case, f"after {n} embedded values on the thread: {f[1][:200]}", "warm:" + cls)
+        elif stream == "rk":
+            # every Deserializer method on every representation of a value
+            _, meth, rh, desc = case.split(" ", 3)
+            rep, how = rh.split("/")
+            r.count(case, True)
+            r.hist["rk_repr"][rep] += 1
+            r.hist["rk_result"][f[1].split("(")[0].split(":")[0].split("[")[0].split("{")[0].split(" ")[0]] += 1
+            if f[1] == "panic" or f[1].startswith("owned/borrowed-differ"):
+                r.oracle_failure(case, f"Deserializer::deserialize_{meth} on a {rep} value: {f[1][:200]}", f"rk:{meth}:" + f[1].split(" ")[0])
+            # one template value in several storages (a string built from &str / String / Arc<str>: SmallStr up to
+            # 22 bytes, else Arc<str>): the storage is no part of the value, so every method must answer alike
+            if how in ("ref", "owned", "arc"):
+                rk_groups[(meth, desc)].append((how, case, f[1]))
+            want = rk_expected(meth, rep, how, desc)
+            if want is not None:
+                r.hist["rk_oracle"]["stated"] += 1
+                if f[1] not in want:
+                    r.oracle_failure(case, f"deserialize_{meth} on the {rep} value the serializer makes of this datum hands the visitor [{f[1][:160]}], not the datum ({' / '.join(sorted(want))[:160]})", f"rk:{meth}:{rep}")
+            if m is not None:
+                if m[0] == "bad-case":
+                    r.broken.append("model driver could not read case " + case[:120])
+                elif m[0] != f[1]:
+                    r.model_disagreement(case, f[1][:200], m[0][:200])
+                else:
+                    r.hist["model"]["agree:rk"] += 1
+        elif stream == "ff":
+            # the token printed for a finite double
+            r.count(case, True)
+            r.hist["ff_result"][f[2] if len(f) > 2 else "?"] += 1
+            text = bytes.fromhex(f[1]).decode("utf-8", "replace") if f[1] != "err" else "err"
+            bits = int(case.split()[1].lstrip("-")) | ((1 << 63) if case.split()[1].startswith("-") else 0)
+            try:
+                py_back = bits_of_f64(float(text)) == bits
+            except ValueError:
+                py_back = False
+            if len(f) < 3 or f[2] != "rt:ok" or not py_back:
+                r.oracle_failure(case, f"the token {text!r} printed for the double with bits {bits} does not denote it (Rust reader: {f[2] if len(f) > 2 else '?'}, Python reader: {'same' if py_back else 'other'})", "ff:denotes")
+            if m is not None:
+                if m[0] == "bad-case":
+                    r.broken.append("model driver could not read case " + case[:120])
+                elif m[0] != f[1]:
+                    r.model_disagreement(case, text, bytes.fromhex(m[0]).decode("utf-8", "replace"))
+                elif m[1:] != ["found:T", "in:T"]:
+                    r.model_disagreement(case, text, "the model's digit search: " + " ".join(m[1:]))
+                else:
+                    r.hist["model"]["agree:ff"] += 1
         else:
             r.broken.append("unknown harness line: " + line[:80])
         if i % 1500 == 0:
             r.sample({"case": case[:200], "result": "\t".join(f[1:])[:200]})
+    for (meth, desc), members in rk_groups.items():
+        ref = [x for x in members if x[0] == "ref"]
+        if not ref:
+            continue
+        for how, case, res in members:
+            if res != ref[0][2]:
+                r.oracle_failure(case, f"deserialize_{meth} answers [{res[:160]}] for this string but [{ref[0][2][:160]}] for the same string in the storage Value::from(&str) gives it", f"rk:{meth}:storage")
 
 
 def run(r):
@@ -448,6 +547,7 @@ def run(r):
               "(IpAddr / SocketAddr, Duration / SystemTime, Result / Bound / Range*, NonZero / Wrapping / Reverse / Cell / RefCell / PhantomData, sets / deques / lists / arrays / 12-tuples / CString / PathBuf); "
               "threads whose handle counter was advanced to 0 .. 131073 (thorough 2^24) before; the tojson post-processing on every 1- and 2-byte ASCII prefix x distance {0,1,7} (thorough 0..17) "
               "x 4 special bytes x 2 tails and every 1-byte prefix x distance 0..70 (thorough 130), outputs hashed against the model's; both map implementations (BTreeMap and IndexMap builds) in every tier; "
+              "every method of the Deserializer trait and the four variant accesses (34) x every representation of a value (SmallStr / Arc<str> / safe strings around the 22-byte capacity, U64 / I64 / U128 / I128 at every width boundary, floats, bytes, none / undefined, invalid, plain objects, value vectors / tuples / 9 custom sequence and iterable objects, value maps / 6 custom map objects with variant-shaped contents) x owned / borrowed deserializer with a call-recording visitor; the printed token of 11k finite doubles (every binade boundary +- 1 ulp, decimal powers +- 1 ulp, 2^53 neighbourhood, random; thorough 130k) against Rust's and Python's readers; "
               "cross-shape deserialisation, "
               "13 derived types, embedded values in 22 contexts x 18 kinds (incl. shapes for which serde buffers several embedded values: flatten + enum struct/tuple variants, internally tagged wrappers, a buffering adapter), the handle registry with up to 40 handles alive at once resolved in creation / reverse / random order, with omissions and repeats (fresh thread per case), lazily produced sequences/maps of 24 kinds (one-shot iterators, "
               "make_iterable adapters, custom Objects with every Enumerator answer) at top level and nested through every JSON mode, a "
@@ -464,7 +564,7 @@ def run(r):
         "map keys that differ as serialised model values differ as engine map keys (float-free keys of one shape)",
         "f32 signalling NaNs are quieted by the f32→f64 conversion (hardware); they are outside the round-trip domain",
         "map keys without a JSON string form (none, sequences, bytes, non-finite floats) make tojson fail instead of emitting text",
-        "the shortest round-trip digits of a double are those of the model's exact-arithmetic search (validated on every float case; the token's grammar is proved, its value is checked by Python)",
+        "the digits ryu prints for a double are those of the model's exact-arithmetic search and its layout is layoutF (validated on every float case: text predicted exactly); that this token denotes the double is proved (float_token_roundtrip) and additionally checked by Rust's and Python's readers",
         "integers held in a 128-bit representation although they fit 64 bits are not distinguished by the model",
         "serde_json's Serializer / PrettyFormatter are transcribed into MJ/Model/JsonSer.lean from the locked sources (the `len == Some(0)` shortcut and the indent counter are re-extracted on every run; the transcription is validated by predicting every emitted text, including those of objects that lie about their length)",
         "iterators behind Enumerator::Iter/RevIter report honest size hints (lower <= count <= upper) and Object::enumerator_len is not overridden with a wrong answer (the serde length contract theorem is stated for such objects)",
@@ -472,9 +572,10 @@ def run(r):
         "a safe string printed directly under JSON auto-escaping is written verbatim (safe = already escaped by definition)",
         "quiet f32 NaNs keep sign and payload through `as f64` / `as f32` (x86-64 / aarch64 hardware conversions; compared bit-exactly)",
         "serde's ContentDeserializer differs from `de` on the buffered copy only by accepting more (unit / unit struct from an empty map or sequence, struct variant from a sequence)",
+        "one string in another storage (built from &str, String or Arc<str>) is the same template value: every Deserializer method must answer alike (oracle of the rk stream); safe strings, undefined and custom objects as sources are compared with the model only",
         "zero-copy targets (&str, &[u8]) and 128-bit integer targets are refused by the deserializer (visit_str / visit_bytes only; deserialize_i128 / _u128 are the trait's unsupported defaults): outside the statement, recorded (derivedx Borrowed / Wide)",
     ]
-    r.regen_tables(["SERDE_METHODS", "SERDE_ARMS", "SERDE_ARGTYPE", "TOJSON_REPLACEMENTS", "TOJSON_TRUE_INDENT", "VALUE_SERIALIZE_LENGTHS", "ENUMERATOR_QUERY_LEN", "SERDE_JSON_COMPOUND", "SERIALIZATION_FLAG_GUARD", "VALUE_HANDLE_REGISTRY", "JINJA_JSON_SEPARATORS", "VALUE_HANDLE_MARKER", "SERDE_JSON_ESCAPE"])
+    r.regen_tables(["SERDE_DE_DISPATCH", "SERDE_METHODS", "SERDE_ARMS", "SERDE_ARGTYPE", "TOJSON_REPLACEMENTS", "TOJSON_TRUE_INDENT", "VALUE_SERIALIZE_LENGTHS", "ENUMERATOR_QUERY_LEN", "SERDE_JSON_COMPOUND", "SERIALIZATION_FLAG_GUARD", "VALUE_HANDLE_REGISTRY", "JINJA_JSON_SEPARATORS", "VALUE_HANDLE_MARKER", "SERDE_JSON_ESCAPE"])
     r.lean_prove("MJ.Props.C16", "MJ/Audit/C16.lean", extra_targets=["drive_c16"])
     # both map implementations are built and run side by side: the default build (BTreeMap) at the tier's size,
     # the `preserve_order` build (IndexMap: insertion order must then be reproduced exactly) at quick size
